@@ -4,3 +4,5 @@ import AY.Model.NodePath
 import AY.Model.Merge
 import AY.Model.Build
 import AY.Model.Construct
+import AY.Model.Func
+import AY.Model.Eval
